@@ -55,6 +55,18 @@ class E6(Exception):
         return (E6, (), {"code": self.code})
 
 
+class E7(Exception):
+    """An immutable value object: attribute assignment is refused."""
+
+    def __init__(self, code, detail):
+        super().__init__(code, detail)
+        object.__setattr__(self, "code", code)
+        object.__setattr__(self, "detail", detail)
+
+    def __setattr__(self, name, value):
+        raise AttributeError("E7 is immutable")
+
+
 class Abort(BaseException):
     """Outside the Exception hierarchy."""
 
@@ -88,6 +100,7 @@ ZOO = {
     "E4": lambda: E4("e4-key"),
     "E5": lambda: E5(3, "e5-msg"),
     "E6": lambda: E6(code=7),
+    "E7": lambda: E7(404, "e7-detail"),
     "FileNotFoundError": lambda: FileNotFoundError(2, "nf", "some/file"),
     "SyntaxError": lambda: SyntaxError("bad", ("f.py", 1, 2, "txt")),
     # outside Exception
@@ -106,7 +119,8 @@ ZOO_CLASSES = {
     "OSError": OSError, "AssertionError": AssertionError,
     "MemoryError": MemoryError, "StopIteration": StopIteration,
     "RecursionError": RecursionError, "E1": E1, "E2": E2, "E3": E3,
-    "E4": E4, "E5": E5, "E6": E6, "FileNotFoundError": FileNotFoundError,
+    "E4": E4, "E5": E5, "E6": E6, "E7": E7,
+    "FileNotFoundError": FileNotFoundError,
     "SyntaxError": SyntaxError,
     "KeyboardInterrupt": KeyboardInterrupt, "SystemExit": SystemExit,
     "GeneratorExit": GeneratorExit, "Abort": Abort,
@@ -118,7 +132,7 @@ CAUGHT_NAMES = ["AttributeError", "NameError", "KeyError", "IndexError",
                 "UnicodeDecodeError", "E4", "E5"]
 UNCAUGHT_NAMES = ["Exception", "ZeroDivisionError", "RuntimeError", "OSError",
                   "AssertionError", "MemoryError", "StopIteration", "E1",
-                  "E2", "RecursionError", "E3", "E6", "FileNotFoundError",
+                  "E2", "RecursionError", "E3", "E6", "E7", "FileNotFoundError",
                   "SyntaxError"]
 NONEXC_NAMES = ["KeyboardInterrupt", "SystemExit", "GeneratorExit", "Abort"]
 
